@@ -14,6 +14,7 @@ import (
 	"github.com/arm-doe/sts"
 	"github.com/arm-doe/sts/fileutil"
 	"github.com/arm-doe/sts/log"
+	"github.com/arm-doe/sts/verifhook"
 )
 
 const (
@@ -240,6 +241,7 @@ func (s *Stage) initStageFile(path string, size int64) error {
 		if cachedState == stateUnknown || cachedState == stateFailed {
 			s.logDebug("Removing Stale Companion:", path+compExt)
 			os.Remove(path + compExt)
+			verifhook.Point("stage.d.rmcmp", path)
 		}
 	}
 	s.logDebug("Making Directory:", filepath.Dir(path))
@@ -255,6 +257,8 @@ func (s *Stage) initStageFile(path string, size int64) error {
 			path, partExt, size, err.Error())
 	}
 	defer fh.Close()
+	verifhook.Point("stage.d.create", path)
+	defer verifhook.Point("stage.d.truncate", path)
 	return fh.Truncate(size)
 }
 
@@ -293,6 +297,7 @@ func (s *Stage) Receive(file *sts.Partial, reader io.Reader) (err error) {
 			err.Error())
 		return
 	}
+	verifhook.Point("stage.recv.opened", path)
 	if _, err = fh.Seek(part.Beg, 0); err != nil {
 		return
 	}
@@ -301,6 +306,7 @@ func (s *Stage) Receive(file *sts.Partial, reader io.Reader) (err error) {
 	if err != nil {
 		return
 	}
+	verifhook.Point("stage.d.written", path)
 
 	// Make sure we're the only one updating the companion
 	s.logDebug("Receiving part:", file.Source, file.Name, part.Beg, part.End)
@@ -308,6 +314,7 @@ func (s *Stage) Receive(file *sts.Partial, reader io.Reader) (err error) {
 	lock := s.getPathLock(path)
 	lock.Lock()
 	defer lock.Unlock()
+	verifhook.Point("stage.recv.locked", path)
 
 	cmp, err := newLocalCompanion(path, file)
 	if err != nil {
@@ -336,8 +343,10 @@ func (s *Stage) Receive(file *sts.Partial, reader io.Reader) (err error) {
 			existing.hash == final.hash {
 			s.logInfo("Ignoring duplicate (receive):", final.name)
 			os.Remove(path + partExt)
+			verifhook.Point("stage.d.rmpart", path)
 			if existing.state >= stateFinalized {
 				os.Remove(path + compExt)
+				verifhook.Point("stage.d.rmcmp", path)
 				s.delPathLock(path)
 			}
 			return
@@ -348,8 +357,10 @@ func (s *Stage) Receive(file *sts.Partial, reader io.Reader) (err error) {
 			s.toCache(final, stateFailed)
 			return
 		}
+		verifhook.Point("stage.d.full", path)
 		s.toCache(final, stateReceived)
 		s.logDebug("File received:", cmp.Source, cmp.Name)
+		verifhook.Point("stage.spawn.validate", final.name)
 		go s.processQueue(final)
 	}
 	return
@@ -516,6 +527,7 @@ func (s *Stage) Recover() {
 							err.Error())
 						return nil
 					}
+					verifhook.Point("stage.d.full", base)
 					s.logDebug("Found already done:", cmp.Name)
 					validate = append(validate, cmp)
 				}
@@ -526,6 +538,7 @@ func (s *Stage) Recover() {
 						path, err.Error())
 					return nil
 				}
+				verifhook.Point("stage.d.rmcmp", base)
 				s.logInfo("Removed orphaned companion:", path)
 			} else if isCompanionComplete(cmp) {
 				// No extension (backward compatibility)
@@ -553,6 +566,7 @@ func (s *Stage) Recover() {
 	for _, file := range finalize {
 		finalFile := s.partialToFinal(file)
 		s.toCache(finalFile, stateValidated)
+		verifhook.Point("stage.spawn.finalize", finalFile.name)
 		go s.finalizeQueue(finalFile)
 	}
 	if len(validate) > 0 {
@@ -703,6 +717,7 @@ func (s *Stage) cleanStrays(minAge time.Duration) {
 					s.logError("Failed to remove stray partial:", path, err.Error())
 					return nil
 				}
+				verifhook.Point("stage.d.rmpart", filePath)
 				s.logInfo("Deleted stray partial:", relPath)
 			}
 			if deleteCmp {
@@ -710,6 +725,7 @@ func (s *Stage) cleanStrays(minAge time.Duration) {
 					s.logError("Failed to remove stray partial companion:", compPath, err.Error())
 					return nil
 				}
+				verifhook.Point("stage.d.rmcmp", filePath)
 				s.logInfo("Deleted stray partial companion:", compPath)
 			}
 			return nil
@@ -753,6 +769,7 @@ func (s *Stage) cleanWaiting() {
 					f.wait = nil
 				}
 				f.prev = ""
+				verifhook.Point("stage.spawn.finalize", f.name)
 				go s.finalizeQueue(f)
 			}
 		}
@@ -799,6 +816,7 @@ func (s *Stage) processQueue(file *finalFile) {
 func (s *Stage) processHandler() {
 	for f := range s.validateCh {
 		s.process(f)
+		verifhook.Point("stage.done.validate", f.name)
 	}
 }
 
@@ -809,6 +827,7 @@ func (s *Stage) process(file *finalFile) {
 	fileLock := s.getPathLock(file.path)
 	fileLock.Lock()
 	defer fileLock.Unlock()
+	verifhook.Point("stage.process.begin", file.name)
 
 	existingState := s.getFileState(file.path)
 	if existingState == stateUnknown || existingState != stateReceived {
@@ -820,7 +839,9 @@ func (s *Stage) process(file *finalFile) {
 	hash, err := fileutil.FileMD5(file.path + fullExt)
 	if err != nil {
 		os.Remove(file.path + compExt)
+		verifhook.Point("stage.d.rmcmp", file.path)
 		os.Remove(file.path + fullExt)
+		verifhook.Point("stage.d.rmfull", file.path)
 		s.logError(fmt.Sprintf(
 			"Failed to calculate MD5 of %s: %s",
 			file.name, err.Error()))
@@ -845,8 +866,10 @@ func (s *Stage) process(file *finalFile) {
 		return
 	}
 
+	verifhook.Point("stage.d.wait", file.path)
 	s.toCache(file, stateValidated)
 
+	verifhook.Point("stage.spawn.finalize", file.name)
 	go s.finalizeQueue(file)
 }
 
@@ -860,14 +883,17 @@ func (s *Stage) finalizeHandler() {
 	defer s.logDebug("Finalize channel done:")
 	for f := range s.finalizeCh {
 		s.logDebug("Finalize chain:", f.name)
+		verifhook.Point("stage.finh.begin", f.name)
 		if state := s.getFileState(f.path); state != stateValidated {
 			// Skip redundancies or mistakes in the pipe
 			s.logDebug("Already finalized or not ready:", f.name)
+			verifhook.Point("stage.done.finalize", f.name)
 			continue
 		}
 		if s.isFileReady(f) {
 			s.finalize(f)
 		}
+		verifhook.Point("stage.done.finalize", f.name)
 	}
 }
 
@@ -990,6 +1016,7 @@ func (s *Stage) finalize(file *finalFile) {
 	waiting := s.fromWait(file.path)
 	for _, waitFile := range waiting {
 		s.logDebug("Stage found waiting:", waitFile.name, "<-", file.name)
+		verifhook.Point("stage.spawn.finalize", waitFile.name)
 		go s.finalizeQueue(waitFile)
 	}
 }
@@ -1003,6 +1030,7 @@ func (s *Stage) putFileAway(file *finalFile) (targetPath string, err error) {
 	// after putting the file away but before logging. On restart, there would
 	// be no knowledge that the file was received and it would be sent again.
 	s.logger.Received(file)
+	verifhook.Point("stage.d.logged", file.path)
 	file.logged = time.Now()
 
 	// Move it
@@ -1025,6 +1053,7 @@ func (s *Stage) putFileAway(file *finalFile) (targetPath string, err error) {
 			file.nErr++
 			time.AfterFunc(time.Second*time.Duration(file.nErr), func() {
 				s.logDebug("Attempting finalize again after failure:", file.name)
+				verifhook.Point("stage.spawn.finalize", file.name)
 				go s.finalizeQueue(file)
 			})
 		}
@@ -1040,6 +1069,7 @@ func (s *Stage) putFileAway(file *finalFile) (targetPath string, err error) {
 	// Clean up the companion (no need to capture an error since it wouldn't
 	// be a deal-breaker anyway)
 	os.Remove(file.path + compExt)
+	verifhook.Point("stage.d.rmcmp", file.path)
 	return
 }
 
@@ -1133,6 +1163,7 @@ func (s *Stage) toWait(prevPath string, next *finalFile, howLong time.Duration) 
 		next.wait = time.AfterFunc(howLong, func(handle func(*finalFile), f *finalFile) func() {
 			return func() {
 				s.logDebug("Attempting finalize again:", f.name)
+				verifhook.Point("stage.spawn.finalize", f.name)
 				handle(f)
 			}
 		}(s.finalizeQueue, next))
